@@ -44,12 +44,30 @@ def stateLine (a : Api) : String :=
   s!"clk={joinNat (ss.map (·.st.clk))} remM={joinNat (ss.map (·.st.remM))} isz={joinNat (ss.map (·.st.isz))} " ++
   s!"pfl={if a.flushing then 1 else 0} err={if a.error then 1 else 0}"
 
+def parseTok (t : String) : Option Supply :=
+  if t == "e" then some Supply.eof
+  else if t == "f" then some Supply.fail
+  else if t.startsWith "d" then (t.drop 1).toNat?.map Supply.data
+  else none
+
+/-- script tokens, run-length encoded as `tok*count` -/
 def parseScript (toks : List String) : List Supply :=
-  toks.filterMap fun t =>
-    if t == "e" then some Supply.eof
-    else if t == "f" then some Supply.fail
-    else if t.startsWith "d" then (t.drop 1).toNat?.map Supply.data
-    else none
+  toks.flatMap fun t => match t.splitOn "*" with
+    | [a, n] => match parseTok a with
+      | some s => List.replicate (n.toNat?.getD 1) s
+      | none => []
+    | _ => (parseTok t).toList
+
+/-- run-length encoded list of naturals: `v,` or `v*count,` -/
+def rle : List Nat → String
+  | [] => ""
+  | x :: xs =>
+    let rec go (cur : Nat) (run : Nat) : List Nat → String → String
+      | [], acc => acc ++ (if run == 1 then s!"{cur}," else s!"{cur}*{run},")
+      | y :: ys, acc =>
+        if y == cur then go cur (run + 1) ys acc
+        else go y 1 ys (acc ++ (if run == 1 then s!"{cur}," else s!"{cur}*{run},"))
+    go x 1 xs ""
 
 def delayBits (d : DSt) : UInt64 :=
   let e := d.api.eng
@@ -74,20 +92,20 @@ def step (d : DSt) (line : String) : DSt × Option String :=
     let mi := n.toNat?.getD 0
     ({ d with api := { d.api with hasFn := true, maxIlen := if mi == 0 then 2^64 - 1 else mi } }, some "ok setfn")
   | ["cr.clear"] =>
-    -- soxr_clear as written: everything but the configuration and input_fn is reset, `max_ilen` included
-    ({ d with api := { eng := { stages := d.plan }, hasFn := d.api.hasFn, maxIlen := 0 } }, some "ok clear")
+    -- soxr_clear: everything but the configuration and the input function (with its max_ilen) is reset
+    ({ d with api := { eng := { stages := d.plan }, hasFn := d.api.hasFn, maxIlen := d.api.maxIlen } }, some "ok clear")
   | ["cr.delay"] => (d, some s!"DELAY {delayBits d}")
   | "cr.proc" :: hasIn :: flushReq :: useIdone :: ilen0 :: olen :: script =>
     match d.api.process (num d) d.fuel (hasIn == "1") (flushReq == "1") (useIdone == "1")
         (ilen0.toNat?.getD 0) (olen.toNat?.getD 0) (parseScript script) with
     | none => (d, some "R out-of-fuel")
     | some (a, idone, odone, rest, reqs) =>
-      ({ d with api := a }, some (s!"R id={idone} od={odone} used={script.length - rest.length} reqs={joinNat reqs} " ++ stateLine a))
+      ({ d with api := a }, some (s!"R id={idone} od={odone} used={(parseScript script).length - rest.length} reqs={rle reqs} " ++ stateLine a))
   | "cr.pull" :: len0 :: script =>
     match d.api.output (num d) d.fuel (len0.toNat?.getD 0) (parseScript script) with
     | none => (d, some "R out-of-fuel")
     | some (a, odone, rest, reqs) =>
-      ({ d with api := a }, some (s!"R id=0 od={odone} used={script.length - rest.length} reqs={joinNat reqs} " ++ stateLine a))
+      ({ d with api := a }, some (s!"R id=0 od={odone} used={(parseScript script).length - rest.length} reqs={rle reqs} " ++ stateLine a))
   | [] => (d, none)
   | _ => (d, some "bad-op")
 
